@@ -15,5 +15,7 @@ mkdir -p "$dir/results"
 while read -r name props; do
   [ -z "$name" ] && continue
   echo "=== $name ($props)"
-  python3 tools/mutant_eval.py --with-tests "$dir/$name.diff" $props 2>&1 | tee "$dir/results/$name.log" | grep -E "^(EXISTING|CAUGHT|PATCH|refusing|C[0-9]+ (VIOLATION|INCON))" | cut -c1-300
+  patch="$dir/$name.diff"
+  [ -f "$dir/$name/patch.diff" ] && patch="$dir/$name/patch.diff"
+  python3 tools/mutant_eval.py --with-tests "$patch" $props 2>&1 | tee "$dir/results/$name.log" | grep -E "^(EXISTING|CAUGHT|PATCH|refusing|C[0-9]+ (VIOLATION|INCON))" | cut -c1-300
 done < "$index"
